@@ -130,23 +130,29 @@ class Ids(object):
         return str(self.n)
 
 
-def gen_history(rng, node, ids, p_loss=0.25, p_dup=0.25, top=True, genes=None):
-    """a HOG history rooted at internal tree node `node` (None when every lineage is lost)"""
+def gen_history(rng, node, ids, p_loss=0.25, p_dup=0.25, top=True, genes=None, p_narrow=0.0):
+    """a HOG history rooted at internal tree node `node` (None when every lineage is lost).
+    p_narrow: probability that only one child clade survives at a level (single-lineage levels are what
+    spellings omit, so this produces long implicit chains and duplications far below their group)"""
     lins = []
-    for c in node.kids:
+    kids = list(node.kids)
+    if not top and kids and rng.random() < p_narrow:
+        kids = [rng.choice(kids)]
+        p_loss = 0.0
+    for c in kids:
         r = rng.random()
         if r < p_loss:
             continue
         if r < p_loss + p_dup:
             ncopies = rng.choice([2, 2, 2, 3, 4])
-            copies = [gen_member(rng, c, ids, p_loss, p_dup, genes) for _ in range(ncopies)]
+            copies = [gen_member(rng, c, ids, p_loss, p_dup, genes, p_narrow) for _ in range(ncopies)]
             copies = [x for x in copies if x is not None]
             if len(copies) >= 2:
                 lins.append(('P', copies))
             elif len(copies) == 1:
                 lins.append(('O', copies[0]))
         else:
-            m = gen_member(rng, c, ids, p_loss, p_dup, genes)
+            m = gen_member(rng, c, ids, p_loss, p_dup, genes, p_narrow)
             if m is not None:
                 lins.append(('O', m))
     if not lins:
@@ -154,13 +160,13 @@ def gen_history(rng, node, ids, p_loss=0.25, p_dup=0.25, top=True, genes=None):
     return ('H', node.path, lins)
 
 
-def gen_member(rng, node, ids, p_loss, p_dup, genes):
+def gen_member(rng, node, ids, p_loss, p_dup, genes, p_narrow=0.0):
     if not node.kids:
         g = ids.next()
         if genes is not None:
             genes.append((g, node))
         return ('G', g, node.path)
-    return gen_history(rng, node, ids, p_loss, p_dup, False, genes)
+    return gen_history(rng, node, ids, p_loss, p_dup, False, genes, p_narrow)
 
 
 def h_tax(h):
@@ -455,9 +461,10 @@ def gen_plan(rng, nleaves=None, nfam=None, fancy_names=False, use_internal=None,
     internals = [n for n in pl.named.nodes() if n.kids]
     p_loss = rng.choice([0.1, 0.25, 0.4])
     p_dup = rng.choice([0.1, 0.25, 0.4])
+    p_narrow = rng.choice([0.0, 0.0, 0.3, 0.6])
     for _ in range(nfam):
         root = rng.choice(internals) if rng.random() < 0.5 else pl.named
-        h = gen_history(rng, root, ids, p_loss, p_dup, True, genes)
+        h = gen_history(rng, root, ids, p_loss, p_dup, True, genes, p_narrow)
         if h is not None:
             pl.hists.append(h)
     pl.singles = []
